@@ -331,7 +331,10 @@ def base_streams_for(pid, r, tier):
     if pid == "C12":
         out = [x for x in streams.length_patterns(r) + streams.congruent_lengths(r) + streams.midsize_padded(r) if x[1]["kind"] == "packet"] + streams.typed_stream("packet", r, tier)
         for k in streams.TYPED + ["unknown"]:
-            out += [streams.P("packet", m["bytes"]) for _, m in streams.structured(k, r, 150 if tier == "quick" else 1500)]
+            for _, m in streams.structured(k, r, 150 if tier == "quick" else 1500):
+                out.append(streams.P("packet", m["bytes"]))
+                # `Unknown::parse` frames any type; its conversions must say what the typed parser says
+                if r.random() < 0.5: out.append(streams.P("unknown", m["bytes"]))
         return out
     if pid == "C13":
         return [x for x in report_ext(r, tier) if x[1]["op"] == "pad"] + pad_stream(r, tier) + pad_big(r)
@@ -402,7 +405,14 @@ def project(pid, t, meta):
     return out
 
 
+def project_interleave(pid, t, meta):
+    """(interleave A B): sizes and unchecked writes of two builders, sized first, written afterwards"""
+    return {k: (v if not v.startswith("err:") else "err") for k, v in t.items() if k.startswith(("a.", "b."))}
+
+
 def project_(pid, t, meta):
+    if meta.get("op") == "interleave":
+        return project_interleave(pid, t, meta)
     op = meta.get("op")
     out = {}
     if pid == "C01":
@@ -417,14 +427,19 @@ def project_(pid, t, meta):
         want = {"C02": ("sr", "rr"), "C03": ("sdes",), "C04": ("bye", "app"), "C05": ("tfb", "pfb")}[pid]
         if op != "build" or leaf_kind(meta) not in want: return out
         out["size"] = cls(t.get("size", ""))
+        n = size_n(t)
         for k, v in t.items():
             if k.startswith("rt."): out[k] = v
+            elif k.startswith("w") and k.endswith(".res"): out[k] = cls(v)
+            elif k.startswith("w") and k.endswith(".buf") and n is not None and t.get(k[:-4] + ".res") == f"ok:{n}" and v != "-":
+                out[k] = v[:2 * n]
         return out
     if pid == "C06":
         if op != "build": return out
         if "size" in t: out["size"] = t["size"] if not t["size"].startswith("err:") else "err"
         for k, v in t.items():
             if k.endswith(".res") and k.startswith("w"): out[k] = v if not v.startswith("err:") or "OutputTooSmall" in v else "err"
+            elif k.endswith(".rewrite_same") and k.startswith("w"): out[k] = v
         return out
     if pid in ("C07", "C14", "C19", "C20", "C17"):
         if op != "build":
@@ -445,6 +460,8 @@ def project_(pid, t, meta):
                     out[k] = v[:2 * n] if v != "-" else v
             elif k.startswith("w") and k.endswith(".res"):
                 out[k] = cls(v) if pid in ("C07", "C17") else v
+            elif k.startswith("w") and k.endswith(".rewrite_same"):
+                out[k] = v
             elif k == "size":
                 out[k] = cls(v) if pid in ("C07", "C17") else v
             elif k.startswith("rt.") and pid in ("C14", "C19"):
